@@ -59,7 +59,20 @@ pub fn compress(data: &[u8], enc: &str, level: u8, window: u8) -> Vec<u8> {
         "deflate" => {
             let mut e = flate2::write::ZlibEncoder::new(Vec::new(), flate2::Compression::new(level.min(9) as u32));
             e.write_all(data).unwrap();
-            e.finish().unwrap()
+            let mut z = e.finish().unwrap();
+            // producers with a smaller window: flate2's encoder always declares 32 KiB (first byte 0x78), but a stream whose
+            // back-references all stay inside a smaller window may declare that window (CINFO = log2(window) - 8). A body
+            // no longer than the window cannot reach further back, so its header can be rewritten (check bits recomputed)
+            let w = window.clamp(8, 15);
+            if w < 15 && data.len() <= (1usize << w) && z.len() >= 2 && z[0] & 0x0f == 8 {
+                z[0] = ((w - 8) << 4) | 8;
+                z[1] &= 0xe0;
+                let rem = ((z[0] as u16) * 256 + z[1] as u16) % 31;
+                if rem != 0 {
+                    z[1] += (31 - rem) as u8;
+                }
+            }
+            z
         }
         _ => {
             let mut out = Vec::new();
@@ -317,7 +330,7 @@ pub fn strategy() -> BoxedStrategy<Case> {
 pub fn run(ctx: &Ctx) -> Report {
     let mut rep = Report::new(
         "C14",
-        "case = generated document (0 B .. ~170 KiB: single, repeated 40x/200x, with up to 100000 incompressible characters, so that single calls of the re-encoder exceed its staging buffer) x filters that find their target (HTML filters, in 35% of the cases with append_text / prepend_text / replace_text filters placed among them) x encoding in {gzip, deflate(zlib), br} x producer settings (flate2 level 0..9, brotli quality 0..11, window 10..24) x header spellings \
+        "case = generated document (0 B .. ~170 KiB: single, repeated 40x/200x, with up to 100000 incompressible characters, so that single calls of the re-encoder exceed its staging buffer) x filters that find their target (HTML filters, in 35% of the cases with append_text / prepend_text / replace_text filters placed among them) x encoding in {gzip, deflate(zlib), br} x producer settings (flate2 level 0..9, zlib streams declaring windows of 2^8..2^15 bytes, brotli quality 0..11, window 10..24) x header spellings \
          x schedule over the COMPRESSED stream (whole, byte-wise, strides 1/2/3/7/10/4096, cuts inside the first 12 bytes, generated k-partitions) ; also unsupported encodings (identity, zstd, compress, 'gzip, br', ' gzip'); \
          oracle = an independent decoder instance accepts the output as ONE complete stream with nothing left over and dec(out) == the same filters applied to the plain body in one chunk; unsupported encoding => no chain is created and out == in; \
          non-trivial = the filters changed the document and a cut falls inside the first 10 or the last 8 bytes of the compressed stream; distinct by case hash",
